@@ -23,13 +23,31 @@ def proj(f):
             "frame": enc(f.frame), "attrs": A.proj_attrs(f.attributes), "extra": [enc(x) for x in f.extra]}
 
 
+DERIVED_SRC = "gffutils_derived"
+
+
+def lines_only(c):
+    """C01 speaks of the features that come from input LINES: what a GTF import derives in addition (transcripts, genes) - where it stores them
+    and which attributes it gives them - is C03's subject.  Returns the case with the derived features taken out of the expectation."""
+    keep = [i for i, f in enumerate(c["feats"]) if dec(f["source"]) != DERIVED_SRC]
+    if len(keep) == len(c["feats"]):
+        return c
+    d = dict(c)
+    d["feats"] = [c["feats"][i] for i in keep]
+    for fld in ("printed", "printedSorted"):
+        if fld in c and len(c[fld]) == len(c["feats"]):
+            d[fld] = [c[fld][i] for i in keep]
+    return d
+
+
 def observe_db(db, sort=False):
-    feats = list(db.all_features())
+    feats = [f for f in db.all_features() if f.source != DERIVED_SRC]
     return {"feats": [proj(f) for f in feats], "printed": [enc(str(f)) for f in feats], "dialect": A.proj_dialect(db.dialect)}
 
 
 def run_case(args):
     c, scratch, k, onfile = args
+    c = lines_only(c)
     import gffutils
     fails = []
     path = os.path.join(scratch, "c01_%d_%d.gff" % (os.getpid(), k))
@@ -72,7 +90,7 @@ def run_case(args):
                     except Exception as e:  # noqa
                         fails.append(("stored_once_oneshot_%s_raised:%s" % (form, type(e).__name__), None))
                         continue
-                    got = [enc(str(f)) for f in dbi.all_features()]
+                    got = [enc(str(f)) for f in dbi.all_features() if f.source != DERIVED_SRC]
                     if len(got) != len(o["printed"]):
                         fails.append(("stored_once_oneshot_" + form, [dec(x) for x in got]))
             # the same file reached through a file:// URL, gzipped, and WITHOUT a newline after its last line
@@ -82,7 +100,7 @@ def run_case(args):
                     f.write(text[:-1])
                 try:
                     dbu = gffutils.create_db("file://" + path + ".u.gz", ":memory:", checklines=c["cl"], merge_strategy="create_unique", keep_order=True)
-                    got = [enc(str(f)) for f in dbu.all_features()]
+                    got = [enc(str(f)) for f in dbu.all_features() if f.source != DERIVED_SRC]
                     if got != o["printed"]:
                         fails.append(("stored_once_url_gz", [dec(x) for x in got]))
                 except Exception as e:  # noqa
@@ -91,7 +109,7 @@ def run_case(args):
                     os.unlink(path + ".u.gz")
             # sort_attribute_values
             db.sort_attribute_values = True
-            ps = [enc(str(f)) for f in db.all_features()]
+            ps = [enc(str(f)) for f in db.all_features() if f.source != DERIVED_SRC]
             db.sort_attribute_values = False
             if ps != c["printedSorted"]:
                 fails.append(("printed_sorted_values", [dec(x) for x in ps]))
@@ -124,6 +142,7 @@ def run_scaled(c, reps, path):
     """a consistent block repeated `reps` times (later copies get keys '<id>_n' under create_unique): thousands of lines, each stored exactly once,
     in input order, columns and attributes as the model says for the block, printed byte-identical, the same after close / reopen"""
     import gffutils
+    c = lines_only(c)
     lines = [dec(l) for l in c["lines"]] * reps
     dbfn = path + ".db"
     try:
@@ -134,7 +153,7 @@ def run_scaled(c, reps, path):
             db = gffutils.create_db(path, dbfn, checklines=c["cl"], merge_strategy="create_unique", keep_order=True, force=True)
             db.conn.close()
             db = gffutils.FeatureDB(dbfn, keep_order=True)
-            feats = list(db.all_features())
+            feats = [f for f in db.all_features() if f.source != DERIVED_SRC]
         if len(feats) != len(lines):
             return "scaled:stored_once", {"stored": len(feats), "lines": len(lines)}
         block = c["feats"]
